@@ -364,12 +364,29 @@ def run(ctx, B):
         k1 = P.key()
         if ins["v0"] != 1 or k1[0] != k0[0] or k1[2:4] != k0[2:4]:
             ctx.violation("%s|builtin-insert-side-effect" % cfg, "Crystal_AddCrystal into the built-in collection: rv=%r, library static storage / locale / cwd changed: %r -> %r" % (ins["v0"], k0, k1))
+        after_ins = []
         for i in range(n):
-            o = P.run(ops[i])
+            o = P.run(ops[i]); after_ins.append(o)
             if o[:6] != ref[None][i][0][:6] and ops[i]["name"] not in ("CrystalList",):
                 ctx.violation("%s|after-builtin-insert|%s" % (cfg, ops[i]["name"]), "after inserting a crystal into the built-in collection %s returns %r instead of %r" % (describe(ops[i]), o[:6], ref[None][i][0][:6]),
                               dict(cfg=cfg, ops=[ops[i]]))
-        ctx.add(evaluations=n); total_trans += n
+        # ... and XRayInit / the deprecated setters AFTER the insertion change nothing either (results with or without XRayInit; the inserted crystal stays, the built-in ones stay)
+        lst0 = P.X.op("CrystalList", "i", [1])[1]
+        got0 = P.X.op("Crystal_GetCrystal", "s", ["Zz_inserted", "TlAP", "AlphaAlumina", "Si"])[0]["flags"].tolist()
+        for extra in (dict(kind="op", name="XRayInit", sig="i", args=[0]), dict(kind="op", name="deprecated", sig="ii", args=[0, 1]), dict(kind="op", name="deprecated", sig="ii", args=[2, 1])):
+            P.run(extra)
+            lst1 = P.X.op("CrystalList", "i", [1])[1]
+            got1 = P.X.op("Crystal_GetCrystal", "s", ["Zz_inserted", "TlAP", "AlphaAlumina", "Si"])[0]["flags"].tolist()
+            if lst1 != lst0 or got1 != got0:
+                ctx.violation("%s|after-builtin-insert|%s-changes-the-collection" % (cfg, describe(extra)), "after inserting a crystal into the built-in collection, %s changes the collection: list %r -> %r, lookups %r -> %r" % (
+                    describe(extra), lst0[0][-60:] if lst0 else None, lst1[0][-60:] if lst1 else None, got0, got1), dict(cfg=cfg, ops=[extra]))
+            for i in range(0, n, 1):
+                o = P.run(ops[i])
+                if o[:6] != after_ins[i][:6]:
+                    ctx.violation("%s|after-builtin-insert|%s|then|%s" % (cfg, extra["name"], ops[i]["name"]), "after inserting a crystal into the built-in collection and calling %s, %s returns %r instead of %r" % (
+                        describe(extra), describe(ops[i]), o[:6], after_ins[i][:6]), dict(cfg=cfg, ops=[extra, ops[i]]))
+                    break
+        ctx.add(evaluations=4 * n); total_trans += 4 * n
         P.close()
         total_trans += order_invariance(ctx, B, cfg, 20000 if quick else 60000)
         total_trans += state_scan(ctx, B, cfg, "xx_XX" if loc else None, quick)
